@@ -120,6 +120,23 @@ static void op_wid(void)
 	printf("\n");
 }
 
+/* op cwid lo hi: the cell width the layout uses (ren_cwid at column 0) for each scalar value, one digit each */
+static void op_cwid(void)
+{
+	int lo = atoi(args[1]), hi = atoi(args[2]), c;
+	char buf[8];
+	for (c = lo; c < hi; c++) {
+		if (c >= 0xd800 && c <= 0xdfff) {
+			putchar('x');
+			continue;
+		}
+		memset(buf, 0, sizeof(buf));
+		uc_cput(buf, c);
+		putchar('0' + ren_cwid(buf, 0));
+	}
+	printf("\n");
+}
+
 /* op enc lo hi: for each scalar value check uc_cput/uc_len/uc_code/uc_end/uc_next against an
  * independent encoder; prints number checked and first mismatch */
 static int ref_enc(int c, unsigned char *d)
@@ -378,6 +395,7 @@ int main(void)
 			continue;
 		if (!strcmp(args[0], "uc")) op_uc();
 		else if (!strcmp(args[0], "wid")) op_wid();
+		else if (!strcmp(args[0], "cwid")) op_cwid();
 		else if (!strcmp(args[0], "enc")) op_enc();
 		else if (!strcmp(args[0], "ren")) op_ren();
 		else if (!strcmp(args[0], "dir")) op_dir();
